@@ -393,6 +393,16 @@ def nd_getattr(I, st, ref, name):
                 return st.alloc(NdE(ee.shape, [tofloat(x) for x in ee.data]))
             raise Unsupported("astype")
         yield st, simple(_as)
+    elif name == "__bool__":
+        def _bool(I, st, a, k):
+            ee = st.get(ref)
+            if size(ee.shape) == 1:
+                yield st, I.truth(ee.data[0], st)
+            elif size(ee.shape) == 0:
+                raise Unsupported("truth value of an empty array")
+            else:
+                yield st, exc("ValueError", "The truth value of an array with more than one element is ambiguous")
+        yield st, Builtin("ndarray.__bool__", _bool)
     elif name == "dtype":
         yield st, Opaque("dtype")
     else:
